@@ -838,3 +838,100 @@ pub fn c16_wire_deadline_case(k: usize, json: bool) -> Outcome {
     out.nontrivial("C16");
     out
 }
+
+/// A well-formed error response whose numeric error-kind code is `code` reaches a real client
+/// (dispatch + call) over the serde transport: nothing may panic, the call must resolve with a
+/// server error, and the connection must keep serving a second call.
+pub fn c16_kind_code_case(code: u32, json: bool) -> Outcome {
+    use tokio::io::AsyncReadExt;
+    let mut out = Outcome::default();
+    out.desc = json!({"family": "S-codec", "case": "error-kind code", "code": code, "codec": if json { "json" } else { "bincode" }});
+    let res = catch_unwind(AssertUnwindSafe(|| {
+        let rt = tokio::runtime::Builder::new_current_thread().enable_time().start_paused(true).build().unwrap();
+        rt.block_on(async {
+            let (mut a, b) = frag_pipe(code as u64, 4096, 0);
+            let frame_for = |id: u64, code: u32| -> Vec<u8> {
+                let payload = if json {
+                    serde_json::to_vec(&json!({"request_id": id, "message": {"Err": {"kind": code, "detail": format!("d{id}")}}})).unwrap()
+                } else {
+                    #[derive(serde::Serialize)]
+                    struct RawErr {
+                        kind: u32,
+                        detail: String,
+                    }
+                    #[derive(serde::Serialize)]
+                    struct RawResp {
+                        request_id: u64,
+                        message: Result<String, RawErr>,
+                    }
+                    use bincode::Options;
+                    bincode::options().serialize(&RawResp { request_id: id, message: Err(RawErr { kind: code, detail: format!("d{id}") }) }).unwrap()
+                };
+                let mut f = (payload.len() as u32).to_be_bytes().to_vec();
+                f.extend(payload);
+                f
+            };
+            macro_rules! go {
+                ($t:expr) => {{
+                    let nc = tarpc::client::new::<String, String, _>(tarpc::client::Config::default(), $t);
+                    let client = nc.client;
+                    let dispatch = nc.dispatch;
+                    let calls = async move {
+                        let mut ctx = context::current();
+                        ctx.deadline = Instant::now() + Duration::from_secs(30);
+                        let r1 = client.call(ctx, "one".to_string()).await;
+                        let r2 = client.call(ctx, "two".to_string()).await;
+                        drop(client);
+                        (r1, r2)
+                    };
+                    let responder = async {
+                        for id in 0..2u64 {
+                            let mut len = [0u8; 4];
+                            if a.read_exact(&mut len).await.is_err() {
+                                break;
+                            }
+                            let mut body = vec![0u8; u32::from_be_bytes(len) as usize];
+                            if a.read_exact(&mut body).await.is_err() {
+                                break;
+                            }
+                            // the odd code first, a plain one for the probe call
+                            let _ = a.write_all(&frame_for(id, if id == 0 { code } else { 16 })).await;
+                        }
+                    };
+                    let d = async {
+                        let _ = dispatch.await;
+                    };
+                    tokio::time::timeout(Duration::from_secs(3600), futures::future::join3(calls, responder, d)).await.map(|x| x.0)
+                }};
+            }
+            if json {
+                go!(tarpc::serde_transport::new(Framed::new(b, LengthDelimitedCodec::new()), tokio_serde::formats::Json::<Response<String>, ClientMessage<String>>::default()))
+            } else {
+                go!(tarpc::serde_transport::new(Framed::new(b, LengthDelimitedCodec::new()), tokio_serde::formats::Bincode::<Response<String>, ClientMessage<String>>::default()))
+            }
+        })
+    }));
+    match res {
+        Err(p) => out.viol("C16", "panic", format!("client endpoint panicked on a response with error-kind code {code} ({}): {}", if json { "JSON" } else { "bincode" }, panic_msg(&p))),
+        Ok(Err(_)) => out.viol("C16", "probe-not-served", format!("after a response with error-kind code {code} the calls did not complete")),
+        Ok(Ok((r1, r2))) => {
+            match &r1 {
+                Err(tarpc::client::RpcError::Server(e)) => {
+                    let want = if (code as usize) < PORTABLE.len() { PORTABLE[code as usize] } else { io::ErrorKind::Other };
+                    if e.kind != want {
+                        out.viol("C15", "error-kind-code", format!("error-kind code {code} decoded as {:?}, expected {want:?}", e.kind));
+                    }
+                }
+                other => out.viol("C16", "odd-message-broke-connection", format!("a well-formed response with error-kind code {code} made the call resolve with {:?}", other.as_ref().map_err(|e| e.to_string()))),
+            }
+            if !matches!(r2, Err(tarpc::client::RpcError::Server(_))) {
+                out.viol("C16", "probe-not-served", format!("after a response with error-kind code {code} the next call resolved with {:?}", r2.as_ref().map_err(|e| e.to_string())));
+            }
+            out.cell("C16.kind-code.served");
+        }
+    }
+    out.sig = mix(code as u64, json as u64 + 99);
+    out.nontrivial("C16");
+    out.trace = vec![format!("response with error-kind code {code} over {} to a real client; probe call afterwards", if json { "json" } else { "bincode" })];
+    out
+}
